@@ -249,6 +249,15 @@ def g_ent_cycles(maxlen=32, flags=""):
         # the cycle passes through elements whose attributes need normalisation (TAB reference / entity)
         decls3 = [("k%d" % i, "<b x=\"&#9;\" y=\"&v;\"/>&k%d;" % ((i + 1) % l)) for i in range(l)] + [("v", "w")]
         out.append(Case(ent_doc(decls3, "<r>&k0;</r>"), flags, True, meta={"gen": "cycle-through-attr-elements", "len": l, "expect": "EntityReferenceLoop"}))
+        # re-declarations: the FIRST declaration binds.  A cycle whose closing edge is re-declared harmlessly is still
+        # a cycle; a harmless chain followed by a re-declaration that would close a cycle is still harmless.
+        for use, body in (("text", "<r>&c0;</r>"), ("attr", "<r a='&c0;'/>")):
+            out.append(Case(ent_doc(decls + [("c%d" % (l - 1), "ok")], body), flags, True,
+                            meta={"gen": "cycle-redeclared-" + use, "len": l, "expect": "EntityReferenceLoop"}))
+            if l <= 9:
+                chain = [("c%d" % i, "x&c%d;" % (i + 1)) for i in range(l)] + [("c%d" % l, "end")]
+                out.append(Case(ent_doc(chain + [("c%d" % l, "&c0;")], body), flags, True,
+                                meta={"gen": "chain-redeclared-" + use, "len": l, "expect": "ok", "expect_value": "x" * l + "end"}))
     return out
 
 
@@ -404,6 +413,31 @@ def g_long_nonascii(flags="", totals=(127, 128, 255, 256, 511, 512, 513, 1024, 4
                 out.append(Case("<e><![CDATA[" + body + "]]>&amp;" + body + "</e>", flags, True, meta=dict(meta, where="cdata-merged")))
             out.append(Case("<e " + name + "='v' x" + name + "  =  'w'/>", flags, True, meta={"gen": "long-nonascii", "total": total, "off": off, "where": "attr-name"}))
             out.append(Case("<" + name + "></" + name + ">", flags, True, meta={"gen": "long-nonascii", "total": total, "off": off, "where": "tag-name"}))
+    return out
+
+
+def g_ent_nested_elems(flags="nc"):
+    """entities whose replacement text holds elements that contain further references, two and three levels deep,
+    used once, twice, inside other elements and in attribute values of elements inside entities"""
+    E, T = spec.Elem, spec.Text
+    dtd = ("<!DOCTYPE r [<!ENTITY e1 'x'><!ENTITY e2 '<p>&e1;</p>'><!ENTITY e3 '<q a=\"&e1;\">&e2;t&e1;</q>'>"
+           "<!ENTITY e4 'u&e2;v<s/>'><!ENTITY e5 '<w>&e3;</w>&e2;'>]>")
+
+    def p():
+        return E("", "p", [], [], [T("x")])
+
+    def q():
+        return E("", "q", [("", "a", "x")], [], [p(), T("tx")])
+    bodies = [
+        ("&e2;", [p()]), ("&e2;&e2;", [p(), p()]), ("a&e2;b", [T("a"), p(), T("b")]),
+        ("&e3;", [q()]), ("<z>&e3;</z>&e2;", [E("", "z", [], [], [q()]), p()]),
+        ("&e4;", [T("u"), p(), T("v"), E("", "s", [], [], [])]), ("&e4;&e4;", [T("u"), p(), T("v"), E("", "s", [], [], []), T("u"), p(), T("v"), E("", "s", [], [], [])]),
+        ("&e5;", [E("", "w", [], [], [q()]), p()]), ("<z k='&e1;'>&e5;&e1;</z>", [E("", "z", [("", "k", "x")], [], [E("", "w", [], [], [q()]), p(), T("x")])]),
+    ]
+    out = []
+    for src, kids in bodies:
+        root = E("", "r", [], [], kids)
+        out.append(Case(dtd + "<r>" + src + "</r>", flags, True, meta={"gen": "ent-nested-elems", "body": src, "expect_content": spec.expected_content(root)}))
     return out
 
 
